@@ -205,6 +205,8 @@ type storeCall struct {
 	Args   []any
 	Err    string
 	Step   int
+	Ev     int // world event number at entry
+	Inc    int // server incarnation
 }
 
 type faultPlan struct {
@@ -236,7 +238,7 @@ var simStore = &storeSim{Calls: map[string]int{}}
 var errInjected = fmt.Errorf("simdb: injected store failure")
 
 func (s *storeSim) reset() {
-	*s = storeSim{Calls: map[string]int{}}
+	*s = storeSim{Calls: map[string]int{}, KeepLog: true}
 }
 
 func simStoreBefore(method string, args ...any) error {
@@ -248,7 +250,11 @@ func simStoreBefore(method string, args ...any) error {
 		if simrt.W != nil {
 			step = simrt.W.Steps
 		}
-		s.Log = append(s.Log, storeCall{Seq: len(s.Log) + 1, Method: method, Args: args, Step: step})
+		inc := 0
+		if curWorld != nil {
+			inc = curWorld.Inc
+		}
+		s.Log = append(s.Log, storeCall{Seq: len(s.Log) + 1, Method: method, Args: args, Step: step, Ev: curEv(), Inc: inc})
 	}
 	if f := s.Fault; f != nil && !f.Fired && simrt.W != nil {
 		if f.FailMethod == "" || f.FailMethod == method {
